@@ -704,6 +704,16 @@ def run(ctx):
             chk.ok(R4, clo.qualname, 'callers', detail='only pack_all_loose (keys tracked after staging, unlinked after commit: C05.R2)', nontrivial=False)
         else:
             chk.bad(R4, clo.qualname, f'callers {callers}', '_clean_loose_objects (unlinks loose files by key) is called from a function other than pack_all_loose', where=f'{clo.module.relpath}:{clo.lineno}')
+    # pack_all_loose: loose files are unlinked only for keys this call staged and committed (same machine as C05.R2; only its unlink rule is used here)
+    from .machines import PackMachine, explore, report_violations
+    q = 'container:Container.pack_all_loose'
+    found, m = explore(ctx, chk, q, {}, lambda g, c: PackMachine(ctx, g, require_durable=False, rule_flush='C02.R4x', rule_durable='C02.R4x', rule_unlink='C02.R4', rule_exc='C02.R4x'),
+                       write_policy(depth=5), 'wp5')
+    found = [(v, c) for v, c in found if v.rule == 'C02.R4']
+    report_violations(chk, q, found)
+    chk.require(m.sites.tracked_unlinks, f'{q}: no tracked unlink of loose files found')
+    if not found:
+        chk.ok(R4, q, f'{len(m.sites.tracked_unlinks)} tracked-unlink site(s)', detail='the unlinked keys are exactly those staged in this call (fed next to the staging site) and already committed')
     # clean_storage: loose unlinks keyed by query results only (after refresh: C05.R3)
     from .c04 import clean_sites
     gcs = ctx.icfg('container:Container.clean_storage', {}, write_policy(depth=5), key='wp5')
@@ -844,6 +854,13 @@ def run(ctx):
         chk.ok(R6, rp.qualname, 'WHERE ' + ' AND '.join(info['where']), detail='the copy loop iterates all rows of the pack', nontrivial=False)
     else:
         chk.bad(R6, rp.qualname, 'WHERE ' + ' AND '.join(info['where']), 'the copy loop does not iterate exactly the rows of the repacked pack', where=f'{rp.module.relpath}:{rl2.lineno}')
+    # a pack file is removed only when no committed row references it (existence test over the pack's rows) or after they were re-pointed
+    from .repack import RepackMachine
+    found, m = explore(ctx, chk, rp.qualname, {}, lambda g, c: RepackMachine(ctx, g, require_durable=False, rule='C02.R6'), write_policy(depth=5), 'wp5')
+    found = [(v, c) for v, c in found if 'removed' in v.msg]
+    report_violations(chk, rp.qualname, found)
+    if not found:
+        chk.ok(R6, rp.qualname, 'unlink of pack files', detail='only with no referencing row (existence query) or after the re-pointing commit: keys never lose their bytes')
     # loosen_object
     lo = cont.methods.get('loosen_object')
     chk.require(lo is not None, 'Container.loosen_object not found')
